@@ -153,11 +153,19 @@ func (p *Program) lifecycle() *lifecycle {
 			}):
 				lc.SchedCleanup = f
 			case has(func(in ssa.Instruction) bool {
+				// removes the dead child from the child table: directly (delete on a map field of the context) ...
+				if cc, ok := in.(*ssa.Call); ok {
+					if bi, ok := cc.Call.Value.(*ssa.Builtin); ok && bi.Name() == "delete" && len(cc.Call.Args) == 2 {
+						if f, _ := fieldLoad(cc.Call.Args[0]); f != nil && fieldVar(lc.Ctx, f.Name()) == f {
+							return true
+						}
+					}
+				}
 				c := callOf(in)
 				if c == nil || c.StaticCallee() == nil {
 					return false
 				}
-				// removes the dead child from the child table
+				// ... or through a helper of the context
 				for _, b := range c.StaticCallee().Blocks {
 					for _, in2 := range b.Instrs {
 						if cc, ok := in2.(*ssa.Call); ok {
